@@ -257,6 +257,46 @@ end
 zinf_tsub :: fn p, q ->
     (1.5, p) - (q, 2)
 end
+
+zlk_apply :: fn f: fn *A -> *B, x: *A -> *B do
+    ret f(x)
+end
+
+zlk_apply2 :: fn f: fn *A, *A -> *A, x: *A -> *A do
+    ret f(x, x)
+end
+
+zlk_each :: fn fs: [fn *A -> *B], x: *A -> [*B] do
+    ret []
+end
+
+zlk_pair :: fn p: (fn *A -> *B, *A) -> *B do
+    ret p[0](p[1])
+end
+
+zlk_pu :: pu f: pu *A -> *B, x: *A -> *B do
+    ret f(x)
+end
+
+zlk_late :: fn x: *A, f: fn *A -> *B -> *B do
+    ret f(x)
+end
+
+zlk_deep :: fn f: fn (fn *A -> int) -> int, x: *A -> int do
+    ret f(fn y: *A -> int do 0 end)
+end
+
+Z3 :: blob {
+    a: int,
+    b: int,
+    c: int,
+}
+
+Zsk :: blob {
+    sink: fn Zb2 -> int,
+    pick: fn (int, int) -> int,
+    tag: fn Ze2 -> int,
+}
 "#;
 
 // ---------------------------------------------------------------- C03 kinds
@@ -388,6 +428,45 @@ pub const C03_KINDS: &[Kind] = &[
     k("str field -= str", Body::Stmts(&["zo := Zb2 { a: 1, b: \"s\" }", "zo.b -= \"x\""])),
     k("str field *= str", Body::Stmts(&["zo := Zb2 { a: 1, b: \"s\" }", "zo.b *= \"!\""])),
     k("bool += bool inside a loop", Body::Stmts(&["zn := 0", "loop zn < 2 do", "    zn += 1", "    zf := true", "    zf += false", "end"])),
+    // stacks of unary operators: every layer must be checked, an even number of them is no identity
+    k("neg neg str", Body::Expr("-(-\"s\")")),
+    k("neg neg str (no parentheses)", Body::Expr("--\"s\"")),
+    k("neg neg neg str", Body::Expr("-(-(-\"s\"))")),
+    k("neg neg neg neg str", Body::Expr("-(-(-(-\"s\")))")),
+    k("neg neg bool", Body::Expr("-(-true)")),
+    k("not not int", Body::Expr("not not 1")),
+    k("not not int (parentheses)", Body::Expr("not (not 1)")),
+    k("not not not int", Body::Expr("not not not 1")),
+    k("not not not not str", Body::Expr("not not not not \"s\"")),
+    k("not not str variable", Body::Stmts(&["zs :: \"s\"", "zq :: not not zs"])),
+    k("neg neg str variable", Body::Stmts(&["zs :: \"s\"", "zq :: -(-zs)"])),
+    k("neg not int", Body::Expr("-(not 1)")),
+    k("not neg bool", Body::Expr("not (-true)")),
+    k("neg neg of a list", Body::Expr("-(-[1])")),
+    // a type variable of a declared signature is ONE variable wherever it is mentioned: first inside a function-typed
+    // parameter and later outside it, in a list or tuple of functions, two levels deep, in std signatures
+    k("signature link: callback parameter vs later argument", Body::Stmts(&["zq := zlk_apply(hzi, \"one\")"])),
+    k("signature link: callback result vs declared result", Body::Stmts(&["zq: str = zlk_apply(hzi, 1)"])),
+    k("signature link: two callback parameters vs later argument", Body::Stmts(&["zq := zlk_apply2(fn a: int, b: int -> int do a + b end, \"s\")"])),
+    k("signature link: callback result vs declared result (two parameters)", Body::Stmts(&["zq: str = zlk_apply2(fn a: int, b: int -> int do a + b end, 1)"])),
+    k("signature link: list of callbacks vs later argument", Body::Stmts(&["zq := zlk_each([hzi], \"s\")"])),
+    k("signature link: list of callbacks vs declared result", Body::Stmts(&["zq: [str] = zlk_each([hzi], 1)"])),
+    k("signature link: callback and argument in one tuple", Body::Stmts(&["zq := zlk_pair((hzi, \"s\"))"])),
+    k("signature link: callback in a tuple vs declared result", Body::Stmts(&["zq: str = zlk_pair((hzi, 1))"])),
+    k("signature link: pure callback parameter vs later argument", Body::Stmts(&["zq := zlk_pu(hzp, \"one\")"])),
+    k("signature link: pure callback result vs declared result", Body::Stmts(&["zq: str = zlk_pu(hzp, 1)"])),
+    k("signature link: earlier argument vs callback parameter", Body::Stmts(&["zq := zlk_late(\"one\", hzi)"])),
+    k("signature link: earlier argument, callback result vs declared result", Body::Stmts(&["zq: str = zlk_late(1, hzi)"])),
+    k("signature link: two levels deep vs later argument", Body::Stmts(&["zq := zlk_deep(fn g: fn int -> int -> int do g(1) end, \"s\")"])),
+    k("signature link: result used by an operator", Body::Stmts(&["zq := zlk_apply(hzi, 1) + \"!\""])),
+    k("std map: annotated callback result vs declared list", Body::Stmts(&["zq: [str] = map([1, 2, 3], pu zx: int -> int do zx * 2 end)"])),
+    k("std map: result elements used as str", Body::Stmts(&["zq :: map([1, 2, 3], pu zx: int -> int do zx * 2 end)", "for_each(zq, fn zs: str do print(zs + \"!\") end)"])),
+    k("std map: callback parameter vs list elements", Body::Stmts(&["zq :: map([\"a\"], pu zx: int -> int do zx * 2 end)"])),
+    k("std fold: callback accumulator vs initial value", Body::Stmts(&["zq :: fold([1], \"0\", pu zx: int, za: int -> int do za + zx end)"])),
+    k("std fold: callback result vs declared result", Body::Stmts(&["zq: str = fold([1], 0, pu zx: int, za: int -> int do za + zx end)"])),
+    k("std filter: callback parameter vs list elements", Body::Stmts(&["zq :: filter([\"a\"], pu zx: int -> bool do zx > 0 end)"])),
+    k("std for_each: callback parameter vs list elements", Body::Stmts(&["for_each([\"a\"], fn zx: int do print(zx) end)"])),
+    k("std maybe.map: callback result vs declared payload", Body::Stmts(&["zq: Maybe(str) = maybe.map(Maybe.Just(1), pu zx: int -> int do zx + 1 end)"])),
 ];
 
 // ---------------------------------------------------------------- C04 kinds
@@ -461,6 +540,15 @@ pub const C05_KINDS: &[Kind] = &[
     k("blob instantiation: no fields", Body::Expr("Zb2 {}")),
     k("blob instantiation: unknown field", Body::Expr("Zb2 { a: 1, b: \"s\", c: 2 }")),
     k("blob instantiation: misspelt field", Body::Expr("Zb2 { a: 1, bb: \"s\" }")),
+    // a field given several times does not stand for the fields that are left out
+    k("blob instantiation: one field twice, the other missing", Body::Expr("Zb2 { a: 1, a: 2 }")),
+    k("blob instantiation: second field twice, the first missing", Body::Expr("Zb2 { b: \"s\", b: \"t\" }")),
+    k("blob instantiation: one of three fields three times", Body::Expr("Z3 { a: 1, a: 2, a: 3 }")),
+    k("blob instantiation: one field twice, one once, one missing", Body::Expr("Z3 { a: 1, a: 2, b: 3 }")),
+    k("blob instantiation: last field twice, first missing", Body::Expr("Z3 { b: 1, c: 2, c: 3 }")),
+    k("blob instantiation: more initialisers than fields, one missing", Body::Expr("Z3 { a: 1, a: 2, b: 3, b: 4 }")),
+    k("generic blob instantiation: a field twice, another missing (variable)", Body::Stmts(&["zo :: Zw { a: 1, a: 2 }", "zq :: zo.b"])),
+    k("blob field of blob type: inner instantiation repeats a field and misses one", Body::Stmts(&["zo :: Zfl { items: [Zlate4 { x: 1 }] }", "zp :: Zft { pair: (1, Zlate5 { x: 1 }) }", "zq :: [Zb2 { a: 1, a: 2 }]"])),
     k("generic blob instantiation: unknown field", Body::Expr("Zg { g: 1, h: 2 }")),
     k("field access: blob lacks field (annotated variable)", Body::Stmts(&["zv: Zb2 = Zb2 { a: 1, b: \"s\" }", "zw :: zv.nope"])),
     k("field access: blob lacks field (inferred variable)", Body::Stmts(&["zv := Zb2 { a: 1, b: \"s\" }", "zw :: zv.nope"])),
@@ -499,6 +587,43 @@ pub const C05_KINDS: &[Kind] = &[
     k("case on the result of a fn field: enum lacks variant", Body::Stmts(&["zh :: fn s: Zshop -> int do", "    case s.pick() do", "        Numbr q -> q end", "        else 0 end", "    end", "end"])),
     k("tuple index on the result of a fn field: out of range", Body::Stmts(&["zh :: fn s: Zshop -> int do", "    s.at()[2]", "end"])),
     k("case without else on the result of a fn field: missing variant", Body::Stmts(&["zh :: fn s: Zshop -> int do", "    case s.pick() do", "        Num q -> q end", "    end", "end"])),
+    // a shape requirement written on an UN-ANNOTATED lambda parameter, whose type only becomes known when the lambda's
+    // function type meets a declared one (callback of a higher-order function, declared variable / field / element / result);
+    // a further statement follows, so nothing re-checks the lambda afterwards
+    k("lambda parameter via for_each: blob lacks field", Body::Stmts(&["for_each([Zb2 { a: 1, b: \"s\" }], fn ze do", "    zw :: ze.nope", "end)", "zdone :: 1"])),
+    k("lambda parameter via user higher-order function: blob lacks field", Body::Stmts(&["zlk_late(Zb2 { a: 1, b: \"s\" }, fn ze -> int do", "    zw :: ze.nope", "    0", "end)", "zdone :: 1"])),
+    k("lambda parameter via declared variable type: blob lacks field", Body::Stmts(&["zf: fn Zb2 -> int = fn ze -> int do", "    zw :: ze.nope", "    0", "end", "zdone :: 1"])),
+    k("lambda parameter via declared list element type: blob lacks field", Body::Stmts(&["zf: [fn Zb2 -> int] = [fn ze -> int do", "    zw :: ze.nope", "    0", "end]", "zdone :: 1"])),
+    k("lambda parameter via declared tuple element type: blob lacks field", Body::Stmts(&["zf: (int, fn Zb2 -> int) = (1, fn ze -> int do", "    zw :: ze.nope", "    0", "end)", "zdone :: 1"])),
+    k("lambda parameter via declared blob field type: blob lacks field", Body::Stmts(&["zo :: Zsk {", "    sink: fn ze -> int do", "        zw :: ze.nope", "        0", "    end,", "    pick: fn zz -> int do", "        0", "    end,", "    tag: fn zz -> int do", "        0", "    end,", "}", "zdone :: 1"])),
+    k("lambda parameter via declared return type: blob lacks field", Body::Stmts(&["zmk :: fn -> fn Zb2 -> int do", "    ret fn ze -> int do", "        zw :: ze.nope", "        0", "    end", "end", "zdone :: 1"])),
+    k("lambda parameter via map: blob lacks field", Body::Stmts(&["zq :: map([Zb2 { a: 1, b: \"s\" }], pu ze -> ze.nope end)", "zdone :: 1"])),
+    k("lambda parameter via filter: blob lacks field", Body::Stmts(&["zq :: filter([Zb2 { a: 1, b: \"s\" }], pu ze -> bool do", "    zw :: ze.nope", "    true", "end)", "zdone :: 1"])),
+    k("lambda parameter via fold: blob lacks field", Body::Stmts(&["zq :: fold([Zb2 { a: 1, b: \"s\" }], 0, pu ze, za -> int do", "    zw :: ze.nope", "    za", "end)", "zdone :: 1"])),
+    k("lambda parameter via for_each: tuple index out of range", Body::Stmts(&["for_each([(1, 2)], fn ze do", "    zw :: ze[2]", "end)", "zdone :: 1"])),
+    k("lambda parameter via user higher-order function: tuple index out of range", Body::Stmts(&["zlk_late((1, 2), fn ze -> int do", "    zw :: ze[2]", "    0", "end)", "zdone :: 1"])),
+    k("lambda parameter via declared variable type: tuple index out of range", Body::Stmts(&["zf: fn (int, int) -> int = fn ze -> int do", "    zw :: ze[2]", "    0", "end", "zdone :: 1"])),
+    k("lambda parameter via declared list element type: tuple index out of range", Body::Stmts(&["zf: [fn (int, int) -> int] = [fn ze -> int do", "    zw :: ze[2]", "    0", "end]", "zdone :: 1"])),
+    k("lambda parameter via declared tuple element type: tuple index out of range", Body::Stmts(&["zf: (int, fn (int, int) -> int) = (1, fn ze -> int do", "    zw :: ze[2]", "    0", "end)", "zdone :: 1"])),
+    k("lambda parameter via declared blob field type: tuple index out of range", Body::Stmts(&["zo :: Zsk {", "    sink: fn zz -> int do", "        0", "    end,", "    pick: fn ze -> int do", "        zw :: ze[2]", "        0", "    end,", "    tag: fn zz -> int do", "        0", "    end,", "}", "zdone :: 1"])),
+    k("lambda parameter via declared return type: tuple index out of range", Body::Stmts(&["zmk :: fn -> fn (int, int) -> int do", "    ret fn ze -> int do", "        zw :: ze[2]", "        0", "    end", "end", "zdone :: 1"])),
+    k("lambda parameter via map: tuple index out of range", Body::Stmts(&["zq :: map([(1, 2)], pu ze -> ze[2] end)", "zdone :: 1"])),
+    k("lambda parameter via filter: tuple index out of range", Body::Stmts(&["zq :: filter([(1, 2)], pu ze -> bool do", "    zw :: ze[2]", "    true", "end)", "zdone :: 1"])),
+    k("lambda parameter via fold: tuple index out of range", Body::Stmts(&["zq :: fold([(1, 2)], 0, pu ze, za -> int do", "    zw :: ze[2]", "    za", "end)", "zdone :: 1"])),
+    k("lambda parameter via for_each: enum lacks variant", Body::Stmts(&["for_each([Ze2.B], fn ze do", "    case ze do", "        D ->", "        end", "        else", "        end", "    end", "end)", "zdone :: 1"])),
+    k("lambda parameter via user higher-order function: enum lacks variant", Body::Stmts(&["zlk_late(Ze2.B, fn ze -> int do", "    case ze do", "        D ->", "        end", "        else", "        end", "    end", "    0", "end)", "zdone :: 1"])),
+    k("lambda parameter via declared variable type: enum lacks variant", Body::Stmts(&["zf: fn Ze2 -> int = fn ze -> int do", "    case ze do", "        D ->", "        end", "        else", "        end", "    end", "    0", "end", "zdone :: 1"])),
+    k("lambda parameter via declared list element type: enum lacks variant", Body::Stmts(&["zf: [fn Ze2 -> int] = [fn ze -> int do", "    case ze do", "        D ->", "        end", "        else", "        end", "    end", "    0", "end]", "zdone :: 1"])),
+    k("lambda parameter via declared tuple element type: enum lacks variant", Body::Stmts(&["zf: (int, fn Ze2 -> int) = (1, fn ze -> int do", "    case ze do", "        D ->", "        end", "        else", "        end", "    end", "    0", "end)", "zdone :: 1"])),
+    k("lambda parameter via declared blob field type: enum lacks variant", Body::Stmts(&["zo :: Zsk {", "    sink: fn zz -> int do", "        0", "    end,", "    pick: fn zz -> int do", "        0", "    end,", "    tag: fn ze -> int do", "        case ze do", "            D ->", "            end", "            else", "            end", "        end", "        0", "    end,", "}", "zdone :: 1"])),
+    k("lambda parameter via declared return type: enum lacks variant", Body::Stmts(&["zmk :: fn -> fn Ze2 -> int do", "    ret fn ze -> int do", "        case ze do", "            D ->", "            end", "            else", "            end", "        end", "        0", "    end", "end", "zdone :: 1"])),
+    k("lambda parameter via for_each: case without else misses variants", Body::Stmts(&["for_each([Ze2.B], fn ze do", "    case ze do", "        B ->", "        end", "    end", "end)", "zdone :: 1"])),
+    k("lambda parameter via user higher-order function: case without else misses variants", Body::Stmts(&["zlk_late(Ze2.B, fn ze -> int do", "    case ze do", "        B ->", "        end", "    end", "    0", "end)", "zdone :: 1"])),
+    k("lambda parameter via declared variable type: case without else misses variants", Body::Stmts(&["zf: fn Ze2 -> int = fn ze -> int do", "    case ze do", "        B ->", "        end", "    end", "    0", "end", "zdone :: 1"])),
+    k("lambda parameter via declared list element type: case without else misses variants", Body::Stmts(&["zf: [fn Ze2 -> int] = [fn ze -> int do", "    case ze do", "        B ->", "        end", "    end", "    0", "end]", "zdone :: 1"])),
+    k("lambda parameter via declared tuple element type: case without else misses variants", Body::Stmts(&["zf: (int, fn Ze2 -> int) = (1, fn ze -> int do", "    case ze do", "        B ->", "        end", "    end", "    0", "end)", "zdone :: 1"])),
+    k("lambda parameter via declared blob field type: case without else misses variants", Body::Stmts(&["zo :: Zsk {", "    sink: fn zz -> int do", "        0", "    end,", "    pick: fn zz -> int do", "        0", "    end,", "    tag: fn ze -> int do", "        case ze do", "            B ->", "            end", "        end", "        0", "    end,", "}", "zdone :: 1"])),
+    k("lambda parameter via declared return type: case without else misses variants", Body::Stmts(&["zmk :: fn -> fn Ze2 -> int do", "    ret fn ze -> int do", "        case ze do", "            B ->", "            end", "        end", "        0", "    end", "end", "zdone :: 1"])),
     k("break outside a loop", Body::OutsideLoop(&["break"])),
     k("continue outside a loop", Body::OutsideLoop(&["continue"])),
     k("break in an if outside a loop", Body::OutsideLoop(&["if true do", "    break", "end"])),
